@@ -441,7 +441,7 @@ fn map_matrix(ctx: &mut Ctx, rng: &mut Rng, x: &Series) {
 fn accessors<V, T>(ctx: &mut Ctx, v: &V, logical: &[T], label: &str, slice_to_vec: impl Fn(&V, usize, usize) -> Result<Vec<T>, String>)
 where
     V: Vec1View<T>,
-    T: Clone + PartialEq + std::fmt::Debug,
+    T: Clone + PartialEq + std::fmt::Debug + IsNone<Inner = f64> + Cast<f64>,
 {
     let len = logical.len();
     let eq = |a: &T, b: &T| a == b || format!("{a:?}") == format!("{b:?}"); // NaN == NaN by debug form
@@ -492,6 +492,32 @@ where
                 Err(p) => bad(ctx, "slice_panic", format!("slice({a},{b}) panics: {p}")),
             }
         }
+    }
+    // the null-aware accessors and the casting iterators agree with the logical sequence
+    let want_opt: Vec<Option<u64>> = logical.iter().map(|t| t.clone().to_opt().map(f64::to_bits)).collect();
+    for i in 0..len + 2 {
+        ctx.events += 1;
+        let g = v.vget(i).map(f64::to_bits);
+        let w = if i < len { want_opt[i] } else { None };
+        if g != w {
+            bad(ctx, "vget", format!("vget({i}) = {:?}", v.vget(i)));
+        }
+        if i < len && unsafe { v.uvget(i) }.map(f64::to_bits) != w {
+            bad(ctx, "uvget", format!("uvget({i}) = {:?}", unsafe { v.uvget(i) }));
+        }
+    }
+    let oi: Vec<Option<u64>> = v.to_opt_iter().map(|o| o.map(f64::to_bits)).collect();
+    if oi != want_opt {
+        bad(ctx, "to_opt_iter", format!("to_opt_iter() yields {:?}", v.to_opt_iter().collect::<Vec<_>>()));
+    }
+    let oc: Vec<Option<u32>> = v.opt_iter_cast::<f32>().map(|o| o.map(f32::to_bits)).collect();
+    let wc: Vec<Option<u32>> = logical.iter().map(|t| t.clone().to_opt().map(|x| (x as f32).to_bits())).collect();
+    if oc != wc {
+        bad(ctx, "opt_iter_cast", format!("opt_iter_cast::<f32>() yields {:?}", v.opt_iter_cast::<f32>().collect::<Vec<_>>()));
+    }
+    let ic: Vec<Option<u64>> = v.iter_cast::<f64>().map(|x| if x.is_nan() { None } else { Some(x.to_bits()) }).collect();
+    if ic != want_opt {
+        bad(ctx, "iter_cast", format!("iter_cast::<f64>() yields {:?}", v.iter_cast::<f64>().collect::<Vec<_>>()));
     }
     if let Some(s) = v.try_as_slice() {
         ctx.count("try_as_slice_offered");
